@@ -464,7 +464,10 @@ def gaussian_mes(X, model, k_samples=10, deterministic=False, random_state=None)
     for _ in range(k_samples):
         y_sample = norm.rvs(loc=mu, scale=std, random_state=random_state)
         gamma = (np.max(y_sample) - mu) / std
-        pdfgamma = np.maximum(norm.pdf(gamma), eps)
+        # only the denominator needs a floor: flooring the density as well turns the first term
+        # into 0.5 * (max_sample - mu) * eps / std, i.e. (std is floored at eps too) into a reward
+        # for predicted values far BELOW the sampled maximum wherever the model is certain
+        pdfgamma = norm.pdf(gamma)
         cdfgamma = np.maximum(norm.cdf(gamma), eps)
         values += 0.5 * gamma * pdfgamma / cdfgamma - np.log(cdfgamma)
     values /= k_samples
